@@ -304,7 +304,7 @@ func c06(c *Ctx) {
 			"SetExtension adds up to 8 header bytes to the last packet after the payloader was given MTU-12: the packet can exceed the MTU")
 		n++
 	}
-	r.Floor("packetizer rule instances", n, 30)
+	r.Floor("packetizer rule instances", n, 18)
 	// sequencer transition (shared with C07)
 	seqIface := p.NamedType("rtp", "Sequencer")
 	if seqIface != nil {
